@@ -57,6 +57,10 @@ def cases(draw):
         case["target"] = draw(common.target_spec(g))
     if chan == "endpoint":
         case["cache_off"] = draw(st.booleans())
+    if chan == "nt" and draw(st.integers(0, 3)) == 0:
+        # class membership from a separate instances file, some instances without a triple of their own (their shapes are
+        # removed as empty at profiling time and the references to them cleaned)
+        case["split_instances"] = draw(st.lists(st.integers(0, 7), min_size=1, max_size=4))
     if chan in ("ntfiles", "zip"):
         case["parts"] = draw(st.integers(2, 5))       # files of the list / members of the archive (statement i goes to part i % parts)
     k = draw(st.integers(0, 7))
@@ -90,7 +94,11 @@ def run_case_here(case):
             kw["all_classes_mode"] = True
         else:
             kw["target_classes"] = list(tgt["classes"])
-        if chan == "nt":
+        if chan == "nt" and case.get("split_instances") is not None:
+            import tempfile
+            tmpd = tempfile.mkdtemp(prefix="vfc19.")
+            kw = common.deliver_split(kw, triples, g["inst_prop"], case["split_instances"], tmpd)
+        elif chan == "nt":
             kw["raw_graph"] = to_nt(triples)
         elif chan == "tsv":
             kw["raw_graph"] = to_tsv(triples)
